@@ -730,8 +730,8 @@ def absorb_runs(res, tag, group, runs, timeout):
                 res.violation(v["key"], v["what"], v["case"], meta=meta)
         if r["rc"] == 0:
             for k, w in fatal:  # reports that did not stop the process (recoverable leak check)
-                res.violation("%s[%s]" % (k, group), w, "%s: reported by the per-file LSan check; the trunc:*:leak "
-                              "witness names the file" % tag, meta=meta, stderr_tail=driver._tail_for(r["stderr"], w))
+                res.violation(k, w, "%s: reported by the batched LSan check; the leak:* witnesses name the files" % tag,
+                              meta=meta, stderr_tail=driver._tail_for(r["stderr"], w))
             continue
         res.count("executor-aborts:" + group)
         if fatal:
@@ -763,7 +763,8 @@ def judge(cases_by_id, obs_paths, res, ran=None):
                 res.count("lsan-leak-checks")
                 if leaked:
                     a, b = cases_by_id[first_id], cases_by_id[cid]
-                    res.violation("leak:%s" % b.group, "LeakSanitizer found memory leaked while loading/saving the %d cases "
+                    coarse = "saved-files" if b.kind == 1 else ("bmp-load" if b.group.startswith("bmp") else "ppm-load")
+                    res.violation("leak:%s" % coarse, "LeakSanitizer found memory leaked while loading/saving the %d cases "
                                   "(all their prefixes) ending with this one; the lsan:leak:* report names the allocation" % n,
                                   "cases %d..%d: first=[%s] last=[%s]" % (first_id, cid, a.name, b.name))
                 continue
